@@ -2,8 +2,10 @@ package main
 
 import (
 	"fmt"
+	"math"
 	"strings"
 	"unicode"
+	"unicode/utf8"
 
 	"github.com/esimov/gogu"
 	"verif/enum"
@@ -29,9 +31,9 @@ func refSubstr(s string, offset, length int) string {
 			return ""
 		}
 	} else {
-		end = start + length
-		if end > n {
-			end = n
+		end = n // positive length is clipped at the end (also when start+length would overflow)
+		if length < n-start {
+			end = start + length
 		}
 	}
 	return s[start:end]
@@ -75,6 +77,41 @@ func c15(r *R) {
 						cls += "-negative-length"
 					}
 					r.Bad("Substr/wrong/"+cls, wit, "got %q, want %q", got, want)
+				}
+			}
+		}
+		// the extremes of the int type (sentinel arguments such as math.MaxInt for "to the end" /
+		// "do not split"; index arithmetic must not wrap around)
+		if utf8.RuneCountInString(s) <= 3 {
+			near := []int{-1, 0, 1, n}
+			for _, off := range append(append([]int{}, extremeInts...), near...) {
+				for _, ln := range append(append([]int{}, extremeInts...), near...) {
+					if !isExtreme(off) && !isExtreme(ln) {
+						continue
+					}
+					var got string
+					p, msg := enum.Try(func() { got = gogu.Substr(s, off, ln) })
+					r.Eval("Substr")
+					wit := fmt.Sprintf("Substr(%q,%d,%d)", s, off, ln)
+					if p {
+						r.Bad("Substr/panic/extreme-argument", wit, "panicked: %s", msg)
+					} else if want := refSubstr(s, off, ln); got != want {
+						r.Bad("Substr/wrong/extreme-argument", wit, "got %q, want %q", got, want)
+					}
+				}
+			}
+			for _, idx := range extremeInts {
+				var got []string
+				p, msg := enum.Try(func() { got = gogu.SplitAtIndex(s, idx) })
+				r.Eval("SplitAtIndex")
+				wit := fmt.Sprintf("SplitAtIndex(%q,%d)", s, idx)
+				switch {
+				case p:
+					r.Bad("SplitAtIndex/panic/extreme-index", wit, "panicked: %s", msg)
+				case len(got) != 2:
+					r.Bad("SplitAtIndex/not-two-parts/extreme-index", wit, "got %d parts %q", len(got), got)
+				case got[0]+got[1] != s:
+					r.Bad("SplitAtIndex/concatenation-differs", wit, "got %q", got)
 				}
 			}
 		}
@@ -349,3 +386,7 @@ func c15Styles(r *R) {
 		}
 	}
 }
+
+var extremeInts = []int{math.MinInt, math.MinInt + 1, math.MinInt32, math.MaxInt32, math.MaxInt - 1, math.MaxInt}
+
+func isExtreme(v int) bool { return v <= math.MinInt32 || v >= math.MaxInt32 }
